@@ -103,6 +103,19 @@ def h1(prog: Program, chk: Check) -> None:
         if not isinstance(e, ast.Name):
             return None
         ds = du.reaching(nid, e.id)
+        for _ in range(3):
+            # a transposed / plain copy held in a local of its own (`first_t = first_half_prop.T`)
+            if len(ds) == 1 and ds[0].value is not None and not ds[0].sel \
+                    and not isinstance(ds[0].value, ast.Call):
+                v_ = ds[0].value
+                while isinstance(v_, ast.Attribute) and v_.attr == "T":
+                    v_ = v_.value
+                if isinstance(v_, ast.Subscript):
+                    v_ = v_.value
+                if isinstance(v_, ast.Name):
+                    ds = du.reaching(ds[0].node, v_.id)
+                    continue
+            break
         if len(ds) != 1 or ds[0].value is None or not isinstance(ds[0].value, ast.Call):
             return None
         callee = dotted(ds[0].value.func)
@@ -123,6 +136,8 @@ def h1(prog: Program, chk: Check) -> None:
     for n in stores:
         t = n.ast.targets[0]
         row = t.value.slice if isinstance(t.value, ast.Subscript) else t.slice
+        if isinstance(row, ast.Tuple) and row.elts:
+            row = row.elts[0]            # a[i, j] and a[i][j] address the same element
 
         def leaf(x):
             if isinstance(x, ast.Name) and x.id == step_var:
@@ -312,7 +327,7 @@ def h2_h3(prog: Program, chk: Check) -> None:
             "a swap that mixes bond and system legs")
     # ---- backward sequence of system superoperators inside the loop
     loop_nodes = [n for n in g.nodes if n.kind == "iter" and n.id in back
-                  and "reversed" in norm(n.ast.iter)]
+                  and _descending(n.ast.iter)]
     if len(loop_nodes) != 1:
         raise AnalysisError("H2: backward loop not found")
     body = g.reachable([b for b, l in g.succ[loop_nodes[0].id] if l == "it"],
@@ -570,6 +585,22 @@ def h6(prog: Program, chk: Check) -> None:
             "all in logical (C) order" if not hits else "reported above")
     if n < 2:
         raise AnalysisError("H6: the gradient module no longer reshapes the states / targets")
+
+
+def _descending(it: ast.AST) -> bool:
+    """reversed(...) anywhere in the iterable, or range(a, b, -k)"""
+    for x in ast.walk(it):
+        if isinstance(x, ast.Call) and call_name(x) == "reversed":
+            return True
+        if isinstance(x, ast.Call) and call_name(x) == "range" and len(x.args) == 3:
+            st_ = x.args[2]
+            if isinstance(st_, ast.UnaryOp) and isinstance(st_.op, ast.USub) and isinstance(st_.operand, ast.Constant):
+                return True
+            if isinstance(st_, ast.Constant) and isinstance(st_.value, int) and st_.value < 0:
+                return True
+        if isinstance(x, ast.Subscript) and norm(x).endswith("[::-1]"):
+            return True
+    return False
 
 
 def h4(prog: Program, chk: Check) -> None:
